@@ -2,7 +2,7 @@
    acc: <ipc 0|1> <accept re-arm variant 0|1> ; ops ; beh0 | beh1 ... ; accept4 answers ; alloc answers ; open answers ; kinds
         ops: Af Ab At C N T R<0|1> V<msg>/<msg>... (msg = ids separated by commas, - = none)
    con: <tcp 0|1> <pipe-fix variant 0|1> ; ops ; behs ; socket answers ; connect answers ; SO_ERROR answers ; event bits
-        ops: T B b P<namelen> Q<flags>,<namelen>,<nul 0|1> C R
+        ops: T B b W H G P<namelen> Q<flags>,<namelen>,<nul 0|1> C R
    w:   <stream><state><handle><api> ; <syscall answer>
    The output uses the trace tokens of harness/c07_accept.c and harness/c07_connect.c. *)
 let zi = z_of_int
@@ -77,6 +77,9 @@ let parse_cop (tok : string) : cop =
   | 'Q' -> (match String.split_on_char ',' arg with
             | [f; n; z] -> CPipe2 (zi (int_of_string f), nat_of_int (int_of_string n), z = "1")
             | _ -> failwith "bad Q")
+  | 'W' -> CWrite
+  | 'H' -> CShut
+  | 'G' -> CRead
   | 'C' -> CClose
   | 'R' -> CRun
   | _ -> failwith ("bad connect op " ^ tok)
